@@ -30,6 +30,13 @@ struct Prog {
   std::string mode, domain;
   unsigned delay = 1, desc = 1, thresholds = 0;
   bool live = false;
+  // fwd_bwd_parameters of the forward+backward analyzer: (fbparams <max_refine_iterations> <use_refined_invariants 0|1>);
+  // absent = crab's defaults (5, false)
+  unsigned fb_max = 5;
+  bool fb_refined = false;
+  // (cfgentry B): entry block of the CFG object when it differs from the block the analysis is started at
+  // (`entry`, also the start of the concrete executions); absent = the same block
+  std::string cfgentry;
   std::vector<std::string> ivars, bvars;
   std::string entry, exit;
   struct Init { std::string v, lo, hi; };
@@ -55,11 +62,17 @@ inline bool parse_prog(const Sx &q, Prog &p, std::string &why) {
     p.delay = std::stoul((*s)[1].a); p.desc = std::stoul((*s)[2].a);
     p.thresholds = std::stoul((*s)[3].a); p.live = (*s)[4].a == "1";
   }
+  if (const Sx *s = section(q, "fbparams")) {
+    if (s->size() != 3) { why = "fbparams"; return false; }
+    p.fb_max = std::stoul((*s)[1].a); p.fb_refined = (*s)[2].a == "1";
+  }
   if (const Sx *s = section(q, "ivars")) for (size_t i = 1; i < s->size(); i++) p.ivars.push_back((*s)[i].a);
   if (const Sx *s = section(q, "bvars")) for (size_t i = 1; i < s->size(); i++) p.bvars.push_back((*s)[i].a);
   const Sx *e = section(q, "entry"), *x = section(q, "exit"), *b = section(q, "blocks");
   if (!e || e->size() != 2 || !b) { why = "entry/blocks"; return false; }
   p.entry = (*e)[1].a;
+  p.cfgentry = p.entry;
+  if (const Sx *ce = section(q, "cfgentry")) { if (ce->size() != 2) { why = "cfgentry"; return false; } p.cfgentry = (*ce)[1].a; }
   if (x && x->size() == 2) p.exit = (*x)[1].a;
   if (const Sx *s = section(q, "init"))
     for (size_t i = 1; i < s->size(); i++) {
@@ -167,8 +180,8 @@ inline void build(const Prog &p, Built &B) {
     z_var v((*B.vf)[n], crab::BOOL_TYPE, 1);
     B.vars.emplace(n, v); B.bvars.push_back(v);
   }
-  if (p.exit.empty()) B.cfg.reset(new z_cfg_t(p.entry));
-  else B.cfg.reset(new z_cfg_t(p.entry, p.exit));
+  if (p.exit.empty()) B.cfg.reset(new z_cfg_t(p.cfgentry));
+  else B.cfg.reset(new z_cfg_t(p.cfgentry, p.exit));
   for (auto &b : p.blocks) B.cfg->insert(b.label);
   for (auto &b : p.blocks) {
     z_basic_block_t &bb = B.cfg->get_node(b.label);
@@ -568,9 +581,21 @@ struct ProgGen {
     o << "(prog." << (bwd ? "fwdbwd" : "fwd") << " " << domname << " (params "
       << (r.below(4) ? r.range(1, 2) : r.range(0, 4)) << " " << (r.below(4) ? r.range(0, 2) : r.range(0, 4)) << " "
       << (r.below(3) ? 0 : (r.coin() ? 5 : 20)) << " " << (r.below(3) == 0 ? 1 : 0) << ")";
+    // every fwd_bwd parameter setting (C02): half of the forward+backward lines leave crab's defaults
+    if (bwd && r.coin()) {
+      static const unsigned MAXR[] = {0, 1, 2, 3, 5, 8};
+      o << " (fbparams " << MAXR[r.below(6)] << " " << (r.below(3) == 0 ? 1 : 0) << ")";
+    }
     o << " (ivars"; for (unsigned v = 0; v < ni; v++) o << " " << vn(v); o << ")";
     o << " (bvars"; for (unsigned v = 0; v < nb; v++) o << " " << bn(v); o << ")";
-    o << " (entry B" << entry << ") (exit B" << exitb << ") (init";
+    o << " (entry B" << entry << ")";
+    // the analysis may be started at a block that is not the entry of the CFG object (run(entry, ...))
+    // (the start block must belong to the CFG: it is made a successor of the CFG entry)
+    if (bs.size() >= 2 && r.below(10) == 0) {
+      unsigned ce = (unsigned)r.below(bs.size());
+      if (ce != entry && ce != exitb) { edge(ce, entry); o << " (cfgentry B" << ce << ")"; }
+    }
+    o << " (exit B" << exitb << ") (init";
     for (unsigned v = 0; v < ni; v++) {
       unsigned k = r.below(20);
       int64_t lo = r.below(8) ? r.range(-6, 6) : konst();
